@@ -140,6 +140,12 @@ func (p *Peer) record(typ byte, frag []byte) []byte {
 	return append(hdr, body...)
 }
 
+// Seal builds the next protected record without sending it.
+func (p *Peer) Seal(typ byte, frag []byte) []byte { return p.record(typ, frag) }
+
+// SendRaw sends bytes as they are.
+func (p *Peer) SendRaw(b []byte) error { return p.L.Send(b) }
+
 // SendRecord sends one record carrying frag.
 func (p *Peer) SendRecord(typ byte, frag []byte) error {
 	p.lastSent = p.record(typ, frag)
